@@ -11,7 +11,7 @@
 \*   - date -> timestamptz -> date and timestamp -> timestamptz -> timestamp
 \*     are identities for local times that exist in the zone.
 \* The grid is exported for the runner.
-EXTENDS DateTime, JsonValue, SequencesExt, FiniteSets, TLC, Json
+EXTENDS DTLaws
 
 B(str) == str     \* strings are written as byte sequences below
 Dates == { <<50,48,49,53,45,48,56,45,48,50>>,          \* 2015-08-02
@@ -28,36 +28,7 @@ Zones == { <<90>>, <<43,48,48>>, <<45,48,52>>, <<45,48,52,58,51,48>>, <<43,48,53
 Strings == Dates \cup Clocks \cup {c \o z : c \in Clocks, z \in Zones}
            \cup {d \o <<84>> \o c : d \in Dates, c \in Clocks} \cup {d \o <<32>> \o c : d \in {<<50,48,49,53,45,48,56,45,48,50>>}, c \in Clocks}
            \cup {d \o <<84>> \o c \o z : d \in Dates, c \in {<<48,48,58,48,48,58,48,48>>, <<50,51,58,53,57,58,53,57>>, <<48,50,58,51,48,58,48,48,46,49,50,51,52,53,54,55,56,57>>}, z \in Zones}
-\* values in and around the hours America/New_York skips (2015-03-08 02:00-03:00) and repeats (2015-11-01 01:00-02:00)
-DSTStrings == {
-    <<50,48,49,53,45,49,49,45,48,49,84,48,49,58,51,48,58,48,48>>,   \* 2015-11-01T01:30:00
-    <<50,48,49,53,45,49,49,45,48,49,84,48,49,58,51,48,58,48,48,45,48,53,58,48,48>>,   \* 2015-11-01T01:30:00-05:00
-    <<50,48,49,53,45,49,49,45,48,49,84,48,49,58,51,48,58,48,48,45,48,52,58,48,48>>,   \* 2015-11-01T01:30:00-04:00
-    <<50,48,49,53,45,49,49,45,48,49,84,48,48,58,51,48,58,48,48,45,48,52,58,48,48>>,   \* 2015-11-01T00:30:00-04:00
-    <<50,48,49,53,45,49,49,45,48,49,84,48,50,58,48,48,58,48,48>>,   \* 2015-11-01T02:00:00
-    <<50,48,49,53,45,49,49,45,48,49,84,48,54,58,48,48,58,48,48,90>>,   \* 2015-11-01T06:00:00Z
-    <<50,48,49,53,45,48,51,45,48,56,84,48,50,58,51,48,58,48,48>>,   \* 2015-03-08T02:30:00
-    <<50,48,49,53,45,48,51,45,48,56,84,48,49,58,51,48,58,48,48,45,48,53,58,48,48>>,   \* 2015-03-08T01:30:00-05:00
-    <<50,48,49,53,45,48,51,45,48,56,84,48,51,58,51,48,58,48,48,45,48,52,58,48,48>>,   \* 2015-03-08T03:30:00-04:00
-    <<50,48,49,53,45,48,51,45,48,56,84,48,51,58,48,48,58,48,48>>,   \* 2015-03-08T03:00:00
-    <<50,48,49,53,45,48,51,45,48,56,84,48,55,58,48,48,58,48,48,90>>,   \* 2015-03-08T07:00:00Z
-    <<50,48,49,53,45,49,49,45,48,49>>,   \* 2015-11-01
-    <<50,48,49,53,45,48,51,45,48,56>>,   \* 2015-03-08
-    <<50,48,49,53,45,49,49,45,48,50>>,   \* 2015-11-02
-    <<50,48,49,53,45,48,51,45,48,57>>,   \* 2015-03-09
-    \* a day boundary: the calendar day of a zone-aware value depends on the zone it is read in
-    <<50,48,49,54,45,48,49,45,48,49>>,   \* 2016-01-01
-    <<50,48,49,53,45,49,50,45,51,49>>,   \* 2015-12-31
-    <<50,48,49,53,45,49,50,45,51,49,84,50,50,58,48,48,58,48,48,45,48,53,58,48,48>>,   \* 2015-12-31T22:00:00-05:00
-    <<50,48,49,54,45,48,49,45,48,49,84,48,51,58,48,48,58,48,48,90>>,   \* 2016-01-01T03:00:00Z
-    <<50,48,49,54,45,48,49,45,48,49,84,48,48,58,51,48,58,48,48,43,48,53,58,51,48>>,   \* 2016-01-01T00:30:00+05:30
-    <<50,48,49,53,45,49,50,45,51,49,84,50,51,58,51,48,58,48,48,45,49,50,58,48,48>>,   \* 2015-12-31T23:30:00-12:00
-    <<50,48,49,54,45,48,49,45,48,49,84,48,49,58,48,48,58,48,48,43,49,52,58,48,48>>,   \* 2016-01-01T01:00:00+14:00
-    <<50,48,49,54,45,48,49,45,48,49,84,48,48,58,48,48,58,48,48>>,   \* 2016-01-01T00:00:00
-    <<50,48,49,53,45,49,50,45,51,49,84,50,51,58,53,57,58,53,57>>,   \* 2015-12-31T23:59:59
-    <<50,48,49,54,45,48,49,45,48,49,84,48,53,58,51,48,58,48,48,43,48,53,58,51,48>>    \* 2016-01-01T05:30:00+05:30
-  }
-StrSeq == SetToSeq(Strings \cup DSTStrings)
+StrSeq == SetToSeq(Strings \cup SpecialStrings)
 \* fractions that lie exactly half way at some precision (decimal halves are not binary halves)
 FracStrings == {
     <<49,50,58,51,52,58,53,54,46,50,56,53>>,   \* 12:34:56.285
@@ -84,44 +55,19 @@ FracStrings == {
 FracSeq == SetToSeq(FracStrings)
 ASSUME ndJsonSerialize("fracstrings.ndjson", [i \in 1..Len(FracSeq) |-> [s |-> FracSeq[i]]])
 ASSUME \A x \in FracStrings : ParseISO(x, -1).ok = "y"
-DSTSeq == SetToSeq(DSTStrings)
-ASSUME ndJsonSerialize("dststrings.ndjson", [i \in 1..Len(DSTSeq) |-> [s |-> DSTSeq[i]]])
+ASSUME ndJsonSerialize("dststrings.ndjson", [i \in 1..Len(SpecialSeq) |-> [s |-> SpecialSeq[i]]])
 ASSUME ndJsonSerialize("dtstrings.ndjson", [i \in 1..Len(StrSeq) |-> [s |-> StrSeq[i]]])
 ASSUME PrintT(<<"UNIVERSE", Len(StrSeq)>>)
 
-CtxZones == {"UTC", "+05:30", "-04:00", "America/New_York"}
 Val(i) == ParseISO(StrSeq[i], -1)
 
 VARIABLES i, j, k, zone
 (* pairs: the whole grid; triples (transitivity): every 5th string, which    *)
 (* still has every type, offset and boundary instant                         *)
-Core == {n \in 1..Len(StrSeq) : n % 5 = 1 \/ StrSeq[n] \in DSTStrings}
+Core == {n \in 1..Len(StrSeq) : n % 5 = 1 \/ StrSeq[n] \in SpecialStrings}
 Init == i \in 1..Len(StrSeq) /\ j = 0 /\ k = 0 /\ zone \in CtxZones
 Step == \/ j = 0 /\ j' \in 1..Len(StrSeq) /\ UNCHANGED <<i, k, zone>>
         \/ j # 0 /\ k = 0 /\ i \in Core /\ j \in Core /\ k' \in Core /\ UNCHANGED <<i, j, zone>>
-
-Cmp(a, b, z) == DTCompare(a, b, TRUE, z)
-RoundTrip(a) == LET r == ParseISO(a.txt, -1) IN r.ok = "y" /\ r.v = a
-PairLaw(a, b, z) ==
-  LET c == Cmp(a, b, z)  d == Cmp(b, a, z)
-  IN /\ RoundTrip(a)
-     /\ c.err = d.err /\ c.comparable = d.comparable
-     /\ (c.err = "none" /\ c.comparable) => c.cmp = -d.cmp                        \* antisymmetry
-     /\ ((a.ty \in {"time", "timetz"}) # (b.ty \in {"time", "timetz"})) => (c.err = "none" /\ ~c.comparable)
-     /\ (a.ty = b.ty) => (c.err = "none" /\ c.comparable)
-     (* zone-crossing comparison without WithTZ is a non-suppressible error *)
-     /\ LET n == DTCompare(a, b, FALSE, z)
-        IN (({a.ty, b.ty} \in {{"date", "tstz"}, {"ts", "tstz"}, {"time", "timetz"}}) => n.err = "hard")
-     (* identities through timestamptz for local times that exist in the zone *)
-     /\ (a.ty \in {"date", "ts"}) =>
-          LET up == Cast(a, "tstz", TRUE, z)
-          IN (up.ok /\ LocalExistsOnce(z, DayNumber(a.y, a.mo, a.d), SecOfDay(a))) =>
-               LET down == Cast(up.v, a.ty, TRUE, z) IN down.ok /\ down.v = a
-TripleLaw(a, b, c, z) ==
-  LET ab == Cmp(a, b, z)  bc == Cmp(b, c, z)  ac == Cmp(a, c, z)
-  IN (ab.err = "none" /\ bc.err = "none" /\ ac.err = "none" /\ ab.comparable /\ bc.comparable /\ ac.comparable) =>
-        /\ (ab.cmp <= 0 /\ bc.cmp <= 0) => ac.cmp <= 0
-        /\ (ab.cmp = 0 /\ bc.cmp = 0) => ac.cmp = 0
 
 Inv == j = 0 \/
        LET a == Val(i)  b == Val(j)
